@@ -40,6 +40,9 @@ pub struct H3 {
     pub closed: Option<String>,
     pub peer_cert: Option<Vec<u8>>,
     pub alpn: Vec<u8>,
+    /// loss injection: datagrams from the server are discarded unread until this instant
+    pub drop_incoming_until: Option<Instant>,
+    pub dropped_datagrams: u64,
 }
 
 fn config(alpn: &[&[u8]], idle_ms: u64) -> Result<quiche::Config, String> {
@@ -81,7 +84,7 @@ impl H3 {
         let peer_cert = conn.peer_cert().map(|c| c.to_vec());
         let h3 = quiche::h3::Connection::with_transport(&mut conn, &quiche::h3::Config::new().map_err(|e| e.to_string())?).map_err(|e| format!("h3 transport: {}", e))?;
         flush(&socket, &mut conn);
-        Ok(H3 { socket, local, conn, h3, streams: HashMap::new(), goaway: None, closed: None, peer_cert, alpn: alpn_got })
+        Ok(H3 { socket, local, conn, h3, streams: HashMap::new(), goaway: None, closed: None, peer_cert, alpn: alpn_got, drop_incoming_until: None, dropped_datagrams: 0 })
     }
 
     /// Send a request head; `authority`/`path` as they go on the wire. Returns the stream id.
@@ -118,7 +121,12 @@ impl H3 {
         flush(&self.socket, &mut self.conn);
         let wait = self.conn.timeout().unwrap_or(max_wait).min(max_wait);
         if tokio::time::timeout(wait, self.socket.readable()).await.is_err() { self.conn.on_timeout(); }
-        read_out(&self.socket, self.local, &mut self.conn);
+        if self.drop_incoming_until.map(|t| Instant::now() < t).unwrap_or(false) {
+            let mut buf = [0u8; 65536];
+            while self.socket.try_recv_from(&mut buf).is_ok() { self.dropped_datagrams += 1; }
+        } else {
+            read_out(&self.socket, self.local, &mut self.conn);
+        }
         loop {
             match self.h3.poll(&mut self.conn) {
                 Ok((id, quiche::h3::Event::Headers { list, .. })) => {
